@@ -4,6 +4,7 @@ Property theorems only; helper lemmas live in `MesonModel/Template/Lemmas.lean`.
 Statements quantify over every line / text (`List Char`), every configuration data and every fuel.
 -/
 import MesonModel.Template.Lemmas
+import MesonModel.Template.CmakeSegs
 
 namespace MesonModel.Props.C14
 open MesonModel.Template MesonModel.Py
@@ -87,6 +88,26 @@ theorem var_segment_sound (s : List Char) (nm : Name) (h : Seg.var nm ∈ segmen
   refine ⟨h1, h2, ?_⟩
   have := src_infix_of_mem h
   rwa [segments_partition] at this
+
+/-- **`var_segment_iff` (positional)**: take any occurrence `@nm@` in a line, at the position after `pre`,
+such that the scan reaches that position as a segment boundary (`segs1` are the segments produced so far
+and cover exactly `pre`, i.e. the `@` is not swallowed by an earlier match).  The next segment is the
+substitution of `nm` **iff** `nm` is a non-empty name over `[-a-zA-Z0-9_]` and the character before the
+`@` is not a backslash.  (`scan_split`: what follows a prefix of the segment list depends only on the
+remaining text and on whether the text so far ends in a backslash.) -/
+theorem var_segment_iff (pre nm post : List Char) (segs1 segs2 : List Seg)
+    (hsplit : segments (pre ++ '@' :: (nm ++ '@' :: post)) = segs1 ++ segs2)
+    (hpre : segs1.flatMap Seg.src = pre) :
+    (∃ segs3, segs2 = Seg.var nm :: segs3) ↔
+      (nm ≠ [] ∧ (∀ c ∈ nm, isNameChar c = true) ∧ pre.getLast? ≠ some '\\') :=
+  var_segment_iff_aux pre nm post segs1 segs2 hsplit hpre
+
+example : segments ("a\\\\".toList ++ '@' :: ("v".toList ++ '@' :: "z".toList)) =
+    [.lit 'a', .esc 1] ++ [.lit '@', .lit 'v', .lit '@', .lit 'z'] ∧
+    ([Seg.lit 'a', .esc 1].flatMap Seg.src = "a\\\\".toList) := by decide
+
+example : segments ("a ".toList ++ '@' :: ("v".toList ++ '@' :: "z".toList)) =
+    [.lit 'a', .lit ' '] ++ [.var ['v'], .lit 'z'] := by decide
 
 /-- a line without `@` is copied unchanged and reports nothing -/
 theorem no_at_identity (d : Data) (s : List Char) (h : '@' ∉ s) :
@@ -246,6 +267,90 @@ theorem cmake_at_one_pass (atOnly : Bool) (d : Data) (f : Nat) (pre p name post 
       parseLine atOnly d f ((varVal d name).reverse ++ (p.reverse ++ pre)) post (varMiss d name ++ m) := by
   rw [parseLine_plain_prefix atOnly d p (f + 1) pre _ m hp, parseLine_at_step atOnly d f _ name post m hne hn,
     varGet_eq]
+
+/-! #### the global one-pass theorem for the cmake formats
+
+`cmakeSegs atOnly fuel line : Skel` is computed from the line alone (no data).  It is `.ok segs`
+(literal characters, `@name@`, `${name}`), `.err e` (the scanner raises `e` for every data), or `.nested`:
+some `${…}` has `$` or `@` between its braces, so the *name* is computed from the data (`${${X}}`) —
+the carve-out, by design of the format. -/
+
+/-- the segments partition the line: nothing lost, duplicated or reordered -/
+theorem cmake_segments_partition (atOnly : Bool) (fuel : Nat) (line : List Char) (segs : List CSeg)
+    (h : cmakeSegs atOnly fuel line = .ok segs) : segs.flatMap CSeg.src = line :=
+  cmakeSegs_partition atOnly fuel line segs h
+
+/-- **`cmake_one_pass`**: for every data, the scanner's result is the concatenation of the per-segment
+replacements of the data-independent segmentation (literal characters copied, each placeholder replaced
+by its value's text — whatever that text contains), and the missing names are exactly the look-ups that
+failed, in order -/
+theorem cmake_one_pass (atOnly : Bool) (d : Data) (fuel : Nat) (line : List Char) (segs : List CSeg)
+    (hf : line.length < fuel) (h : cmakeSegs atOnly fuel line = .ok segs) :
+    substCmake atOnly d fuel line =
+      .ok (segs.flatMap (CSeg.text d), (segs.flatMap (CSeg.miss d)).reverse) := by
+  have := parseLine_eq_run atOnly d fuel [] line [] hf _ (by rw [h]; rfl)
+  simpa [substCmake] using this
+
+/-- an error of the segmentation is the scanner's error for every data -/
+theorem cmake_error_data_independent (atOnly : Bool) (d : Data) (fuel : Nat) (line : List Char) (e : Err)
+    (hf : line.length < fuel) (h : cmakeSegs atOnly fuel line = .err e) :
+    substCmake atOnly d fuel line = .error e := by
+  have := parseLine_eq_run atOnly d fuel [] line [] hf _ (by rw [h]; rfl)
+  simpa [substCmake] using this
+
+/-- **a substituted value is never scanned again (cmake formats)**: outside the carve-out there is one
+data-independent skeleton such that for *all* data the result is the skeleton rendered with the data -/
+theorem cmake_value_never_rescanned (atOnly : Bool) (fuel : Nat) (line : List Char) (hf : line.length < fuel)
+    (hn : cmakeSegs atOnly fuel line ≠ .nested) :
+    ∃ sk : Skel, ∀ d : Data, some (substCmake atOnly d fuel line) = sk.run d [] [] := by
+  refine ⟨cmakeSegs atOnly fuel line, fun d => ?_⟩
+  cases h : cmakeSegs atOnly fuel line with
+  | ok segs => rw [cmake_one_pass atOnly d fuel line segs hf h]; simp [Skel.run]
+  | err e => rw [cmake_error_data_independent atOnly d fuel line e hf h]; rfl
+  | nested => exact absurd h hn
+
+/-- the carve-out is empty for `cmake@` -/
+theorem cmakeAt_never_nested (fuel : Nat) (line : List Char) : cmakeSegs true fuel line ≠ .nested :=
+  cmakeSegs_atOnly_ne_nested fuel line
+
+/-- **reports every undefined name, and only those (cmake formats)**: a name is reported missing iff it is
+the name of a placeholder segment of the line and the data lacks it; such names are well-formed -/
+theorem cmake_missing_iff (atOnly : Bool) (d : Data) (fuel : Nat) (line : List Char) (segs : List CSeg)
+    (hf : line.length < fuel) (h : cmakeSegs atOnly fuel line = .ok segs) (t : List Char) (miss : List Name)
+    (hr : substCmake atOnly d fuel line = .ok (t, miss)) (nm : Name) :
+    nm ∈ miss ↔ ((CSeg.atVar nm ∈ segs ∨ CSeg.braceVar nm ∈ segs) ∧ d.get? nm = none) := by
+  rw [cmake_one_pass atOnly d fuel line segs hf h] at hr
+  simp only [Except.ok.injEq, Prod.mk.injEq] at hr
+  obtain ⟨_, rfl⟩ := hr
+  simp only [List.mem_reverse, List.mem_flatMap]
+  constructor
+  · rintro ⟨sg, hsg, hm⟩
+    cases sg with
+    | lit c => simp [CSeg.miss] at hm
+    | atVar n =>
+      simp only [CSeg.miss, varMiss] at hm
+      split at hm
+      · simp at hm
+      · rename_i hn; simp at hm; subst hm; exact ⟨Or.inl hsg, hn⟩
+    | braceVar n =>
+      simp only [CSeg.miss, varMiss] at hm
+      split at hm
+      · simp at hm
+      · rename_i hn; simp at hm; subst hm; exact ⟨Or.inr hsg, hn⟩
+  · rintro ⟨hsg | hsg, hn⟩
+    · exact ⟨_, hsg, by simp [CSeg.miss, varMiss, hn]⟩
+    · exact ⟨_, hsg, by simp [CSeg.miss, varMiss, hn]⟩
+
+theorem cmake_placeholder_names_wf (atOnly : Bool) (fuel : Nat) (line : List Char) (segs : List CSeg)
+    (h : cmakeSegs atOnly fuel line = .ok segs) (nm : Name)
+    (hm : CSeg.atVar nm ∈ segs ∨ CSeg.braceVar nm ∈ segs) : ∀ c ∈ nm, isCmakeChar c = true :=
+  cmakeSegs_name_wf atOnly fuel line segs h nm hm
+
+example : cmakeSegs false 30 "a ${X}@Y@ $ {".toList =
+    .ok ([.lit 'a', .lit ' ', .braceVar ['X'], .atVar ['Y']] ++ " $ {".toList.map .lit) := by decide
+example : cmakeSegs false 30 "${${X}}".toList = .nested := by decide
+example : cmakeSegs true 30 "${${X}}@X@".toList = .ok ("${${X}}".toList.map .lit ++ [.atVar ['X']]) := by decide
+example : cmakeSegs false 30 "${A B}".toList = .err .invalidChar := by decide
 
 /-- every well-formed `${VAR}` is replaced: two adjacent placeholders are both replaced and both looked
 up, for **all** values — empty, undefined or containing placeholders themselves -/
